@@ -163,9 +163,16 @@ def check_case(ctx, case, max_runs):
         runs = [(script0, out, r)]
     else:
         runs = rng.explore(lambda: rules.run(cfg, prof, call_budget=budget)[0], max_runs=max_runs, raw=True)
+    before = canon.jhash(canon.profile_c(prof)) + canon.jhash([canon.groups(b.ranking or ()) for b in prof.ballots])
     for script, out, r in runs:
         c2 = dict(case)
         c2["script"] = script
+        # running an election must not change the profile it was given (the same profile object is reused for every run)
+        after = canon.jhash(canon.profile_c(prof)) + canon.jhash([canon.groups(b.ranking or ()) for b in prof.ballots])
+        ctx.count("input_profile_unchanged_checks")
+        if after != before:
+            ctx.fail(f"{cfg['rule']}: constructing the election changed the input profile", c2, {})
+            return
         res = ctx.guard("check_outcome", check_outcome, ctx, c2, out, r, cands, ballots)
         nontrivial = len(cands) >= 2 and (not out.ok or (res is not None and (res[0] > 2 or res[1])))
         ctx.case({"cfg": cfg, "profile": spec, "script": script}, nontrivial=nontrivial)
